@@ -27,8 +27,26 @@ def extract_color_from_decl(decl):
     return tinycss2.serialize(decl.value).strip()
 
 
-def update_decl_value(decl, new_value_str):
-    decl.value = tinycss2.parse_component_value_list(new_value_str)
+def _replace_tokens(tokens, old, new):
+    """`tokens` with the run of `old` tokens (matched by identity) replaced by `new`."""
+    for i, token in enumerate(tokens):
+        if old and token is old[0]:
+            return tokens[:i] + list(new) + tokens[i + len(old) :]
+    return tokens
+
+
+def _has_unparsed(declarations):
+    # tinycss2 cannot serialise a declaration it failed to parse (e.g. the "*zoom: 1" hack)
+    return any(getattr(d, "type", None) == "error" for d in declarations)
+
+
+def update_decl_value(decl, new_value_str, container=None):
+    new_tokens = tinycss2.parse_component_value_list(new_value_str)
+    if container is not None:
+        # keep the rule's own token list in step, so that it never has to be rebuilt
+        # from a declaration list that tinycss2 cannot serialise
+        container.content = _replace_tokens(container.content, decl.value, new_tokens)
+    decl.value = new_tokens
 
 
 def collect_variables(rules):
@@ -196,16 +214,18 @@ def process_nodes_recursive(
                                     if var_name in variables:
                                         # Update the variable definition
                                         var_def = variables[var_name]
-                                        update_decl_value(var_def["decl"], tuned_rgb)
+                                        update_decl_value(
+                                            var_def["decl"], tuned_rgb, var_def.get("rule")
+                                        )
                                         # Update our local map so future usages see the new value
                                         var_def["value"] = tuned_rgb
                                     else:
                                         # The property is not defined (its fallback supplied the
                                         # colour): the colour lives in this declaration, write it here
-                                        update_decl_value(color_decl, tuned_rgb)
+                                        update_decl_value(color_decl, tuned_rgb, node)
                                         modified = True
                                 else:
-                                    update_decl_value(color_decl, tuned_rgb)
+                                    update_decl_value(color_decl, tuned_rgb, node)
                                     modified = True
 
                                 # Calculate new level
@@ -251,7 +271,7 @@ def process_nodes_recursive(
                         }
                     )
 
-            if modified:
+            if modified and not _has_unparsed(declarations):
                 # Reconstruct content tokens using tinycss2 serialization to preserve comments and !important
                 new_content_str = tinycss2.serialize(declarations)
                 # We need to parse this back into component values for the node content
@@ -379,6 +399,8 @@ def main(path, default_bg, mode, premium):
             for rule in rules:
                 if id(rule) in rule_declarations_map:
                     decls = rule_declarations_map[id(rule)]
+                    if _has_unparsed(decls):
+                        continue  # already updated token by token
                     # Serialize back to component values
                     new_content_str = tinycss2.serialize(decls)
                     rule.content = tinycss2.parse_component_value_list(new_content_str)
